@@ -202,6 +202,11 @@ void Reference::apply_repetition(Array<Reference*>& result) {
 
     // Skip first offset (0, 0)
     double* offset_p = (double*)(offsets.items + 1);
+    if (offsets.count < 2) {
+        // Empty lattice (0 columns or rows) or no extra offsets: nothing to copy
+        offsets.clear();
+        return;
+    }
     result.ensure_slots(offsets.count - 1);
     for (uint64_t offset_count = offsets.count - 1; offset_count > 0; offset_count--) {
         Reference* reference = (Reference*)allocate_clear(sizeof(Reference));
